@@ -44,7 +44,7 @@ def _qualname_functions(tree):
 
 def _own_nodes(fn):
     """nodes of fn excluding nested function/class bodies"""
-    stack = list(fn.body)
+    stack = [s for s in fn.body if not isinstance(s, (ast.FunctionDef, ast.AsyncFunctionDef, ast.ClassDef))]
     while stack:
         n = stack.pop()
         yield n
